@@ -129,7 +129,20 @@ impl SvgElement {
         requires old(self).evaluated(),     // a compound value (wh, rxy, dwh) is split into its parts only after its expressions are evaluated: "{{$s * 2}} {{$s - 1}}" has blanks inside the expressions @C14.reuse.evaluated_before_split @C18.reuse.evaluated_before_split
         ensures final(self).evaluated()
     { unimplemented!() }
-    #[verifier::external_body] pub fn size(&self, ctx: &TransformerContext) -> Result<Option<Size>> { unimplemented!() }
+    /// ghost: dw / dh (dwh) have been applied to the size attributes ("Assumes any dw / dh have already been applied", SvgElement::size)
+    pub uninterp spec fn deltas_resolved(&self) -> bool;
+    /// ghost: the position shorthands (xy, cxy, xy1, xy2, dxy) have been expanded into their per-axis attributes
+    pub uninterp spec fn pos_expanded(&self) -> bool;
+    #[verifier::external_body] pub fn size(&self, ctx: &TransformerContext) -> Result<Option<Size>>
+        requires self.deltas_resolved()     // the size an instance is placed with includes the template's dw / dh: placing it must not change its size @C18.instance.size_includes_deltas
+    { unimplemented!() }
+    #[verifier::external_body] pub fn resolve_size_delta(&mut self)
+        requires old(self).evaluated()
+        ensures final(self).evaluated(), final(self).deltas_resolved()
+    { unimplemented!() }
+    #[verifier::external_body] pub fn expand_compound_pos(&mut self)
+        ensures old(self).evaluated() ==> final(self).evaluated(), final(self).pos_expanded(), final(self).name == old(self).name, defaulted(*old(self)) ==> defaulted(*final(self))
+    { unimplemented!() }
     #[verifier::external_body] pub fn resolve_position(&mut self, ctx: &TransformerContext) -> Result<()> { unimplemented!() }
     #[verifier::external_body] pub fn set_indent(&mut self, indent: usize) { unimplemented!() }
     #[verifier::external_body] pub fn set_src_line(&mut self, line: usize) { unimplemented!() }
@@ -155,7 +168,9 @@ pub fn position_from(e: &SvgElement) -> Position { unimplemented!() }
 impl Position {
     #[verifier::external_body] pub fn update_size(&mut self, sz: &Size) { unimplemented!() }
     #[verifier::external_body] pub fn update_shape(&mut self, shape: &str) { unimplemented!() }
-    #[verifier::external_body] pub fn set_position_attrs(&self, element: &mut SvgElement) { unimplemented!() }
+    #[verifier::external_body] pub fn set_position_attrs(&self, element: &mut SvgElement)
+        requires old(element).name@ == "g"@ || old(element).pos_expanded()     // Position writes per-axis attributes: a shorthand (xy="0" on the template) still on the element would be expanded afterwards and fight with them @C18.place.position_shorthand_expanded_first
+    { unimplemented!() }
     #[verifier::external_body] pub fn has_x_position(&self) -> bool { unimplemented!() }
     #[verifier::external_body] pub fn has_y_position(&self) -> bool { unimplemented!() }
 }
@@ -353,8 +368,10 @@ impl EventGen for VarElement {
 #[verifier::external_body]
 pub fn override_attrs(reuse_element: &SvgElement, instance_element: &mut SvgElement) { unimplemented!() }
 
+//@rewrite strlit strmatch
 impl EventGen for ReuseElement {
 //@item src/reuse.rs :: impl EventGen for ReuseElement :: fn generate_events
+//@ strlit "g"
 //@ replace[R-parse] <<<elref.parse()>>> => <<<parse_elref(&elref)>>>
 //@ replace[R-abstract] <<<        for (attr, value) in reuse_element.get_attrs() {\n            match attr.as_str() {\n                "href" | "id" | "x" | "y" => continue,\n                "transform" => {\n                    // append to any existing transform\n                    let mut xfrm = value.clone();\n                    if let Some(inst_xfrm) = instance_element.get_attr("transform") {\n                        xfrm = format!("{} {}", inst_xfrm, xfrm);\n                    }\n                    instance_element.set_attr("transform", &xfrm);\n                }\n                _ => {\n                    // this is the _opposite_ of set_default_attr(); it allows\n                    // the target element to provide defaults, but have them\n                    // overridden by the reuse element.\n                    if instance_element.has_attr(&attr) {\n                        instance_element.set_attr(&attr, &value);\n                    }\n                }\n            }\n        }>>> => <<<        override_attrs(&reuse_element, &mut instance_element);>>>
 //@ replace[R-ctor] <<<SvgElement::new("g", &[])>>> => <<<SvgElement::new_g()>>>
